@@ -85,7 +85,7 @@ func runC18(ctx *Ctx) {
 		bound = 2
 	}
 	// (a) the parsed configuration, key by key (sequential: the working directory is process-global)
-	dir, err := os.MkdirTemp("/verif/.build", "run.")
+	dir, err := os.MkdirTemp(report.BuildDir, "run.")
 	if err != nil {
 		r.HarnessError(err.Error())
 		return
